@@ -390,7 +390,7 @@ fn emit(out: &mut Out, id: u64, c: &Cfg, fam: &str, stream: &str, thorough: bool
     }
 
     let res = timed_fit(&c, if thorough { 120 } else { 30 });
-    let replay_ok = n <= (if thorough { 60 } else { 36 });
+    let replay_ok = n <= (if stream == "shrink" { 130 } else if thorough { 60 } else { 36 });
     let nt = if c.kind == Kind::OneClass { (c.par1 * n as f64) as u64 } else { 0 };
     let head = format!(
         "{{| c_id := {}; c_kind := {}; c_kernel := {}; c_kp1 := {}; c_kp2 := {}; c_X := {}; c_yb := {}; c_yr := {}; c_par1 := {}; c_par2 := {}; c_eps := {}; c_shrink := {}; c_nt := {}; ",
@@ -496,7 +496,7 @@ fn main() {
     let args = parse_args();
     let mut rng = Sm64::new(args.seed);
     let thorough = args.tier == "thorough";
-    let ncases = if thorough { 1500 } else { 200 };
+    let ncases = if thorough { 800 } else { 180 };
     let mut out = Out::new(&args.out, args.shards, "C13.Corr", "case", args.only);
     let mut max_slack_ratio = 0.0f64;
     let mut id: u64 = 0;
@@ -558,6 +558,29 @@ fn main() {
         emit(&mut out, id, &c, &format!("{}", fam), "defaults", thorough, &mut max_slack_ratio);
         id += 1;
     }
+    // ---- stream "shrink": shrinking with coarse tolerances, so that the unshrink window (10 * eps) and the
+    // shrinking schedule (every min(n, 1000) iterations) are hit in different states; three larger problems ----
+    for k in 0..(if thorough { 60u64 } else { 24 }) {
+        let mut r = rng.fork();
+        let kind = [Kind::CSvc, Kind::CSvc, Kind::EpsSvr, Kind::NuSvc, Kind::OneClass, Kind::CSvc][k as usize % 6];
+        let large = k % 8 == 7;
+        let (mut c, fam) = gen_cfg(&mut r, if large { 125 } else { 36 }, Some(kind));
+        if large && c.x.len() < 104 {
+            // top up to more than 100 samples
+            let (c2, _) = gen_cfg(&mut r, 125, Some(kind));
+            if c2.x.len() >= 104 && c2.x[0].len() == c.x[0].len() { c.x = c2.x; c.yb = c2.yb; c.yr = c2.yr; }
+        }
+        c.shrink = true;
+        c.platt = false;
+        c.eps = [0.3, 0.1, 0.03, 0.01][(k / 2) as usize % 4];
+        if kind == Kind::CSvc { c.par1 = [1.0, 10.0, 100.0][k as usize % 3]; c.par2 = c.par1 * [1.0, 0.3][k as usize % 2]; }
+        if kind == Kind::NuSvc {
+            let n = c.x.len(); let npos = c.yb.iter().filter(|b| **b).count();
+            c.par1 = 0.6 * (2.0 * npos.min(n - npos) as f64 / n as f64).min(1.0);
+        }
+        emit(&mut out, id, &c, &format!("{}", fam), "shrink", thorough, &mut max_slack_ratio);
+        id += 1;
+    }
     // ---- stream "guard": malformed hyper-parameters must be rejected, boundary values accepted ----
     if out.only.is_none() {
         let x = arr(&[vec![0.0], vec![1.0], vec![2.0], vec![3.0]]);
@@ -596,8 +619,8 @@ fn main() {
     for _ in 0..ncases {
         let mut r = rng.fork();
         // size classes: most cases small enough for the bit-exact replay, some larger ones for the oracle only
-        let big = r.chance(if thorough { 0.15 } else { 0.08 });
-        let nmax = if big { if thorough { 400 } else { 120 } } else { if thorough { 60 } else { 36 } };
+        let big = r.chance(if thorough { 0.06 } else { 0.06 });
+        let nmax = if big { if thorough { 250 } else { 120 } } else { if thorough { 60 } else { 36 } };
         let (c, fam) = gen_cfg(&mut r, nmax, None);
         emit(&mut out, id, &c, &format!("{}", fam), "random", thorough, &mut max_slack_ratio);
         id += 1;
